@@ -24,7 +24,7 @@
 (* whose outcome depends on that meaning; the observations must equal      *)
 (* those of the canonical spelling (monitor M12).  The Defects switches    *)
 (* are the parsers of the pinned tree and of seeded changes:               *)
-(* case_sensitive, first_line_only, no_quoted_args, naive_split.           *)
+(* case_sensitive, first_line_only, no_quoted_args, naive_split, last_wins.*)
 (***************************************************************************)
 EXTENDS Integers, Sequences, FiniteSets, TLC, Json
 
@@ -90,6 +90,8 @@ DirLists ==
      [kind |-> "resp", dirs |-> <<D("no-store", ""), D("max-age", "30")>>, abs |-> RespAbs(30, -1, -1, <<"no-store">>, 0)],
      [kind |-> "resp", dirs |-> <<D("no-cache", ""), D("max-age", "30")>>, abs |-> RespAbs(30, -1, -1, <<"no-cache">>, 0)],
      [kind |-> "resp", dirs |-> <<D("no-cache", "X-Secret"), D("max-age", "30")>>, abs |-> RespAbs(30, -1, -1, <<"no-cache">>, 1)],
+     \* said twice, once with field names: the unqualified form covers the whole response
+     [kind |-> "resp", dirs |-> <<D("no-cache", ""), D("no-cache", "X-Secret"), D("max-age", "30")>>, abs |-> RespAbs(30, -1, -1, <<"no-cache">>, 0)],
      [kind |-> "resp", dirs |-> <<D("max-age", "5"), D("stale-while-revalidate", "30")>>, abs |-> RespAbs(5, 30, -1, <<>>, 0)],
      [kind |-> "resp", dirs |-> <<D("max-age", "5"), D("stale-if-error", "30")>>, abs |-> RespAbs(5, -1, 30, <<>>, 0)],
      [kind |-> "resp", dirs |-> <<D("public", ""), D("max-age", "5"), D("must-revalidate", ""), D("stale-if-error", "30")>>,
@@ -211,19 +213,26 @@ Unquote(s) ==
 KeyOf(part) == LET i == CutAt(part)  k == IF i = 0 THEN Trim(part) ELSE SubSeq(part, 1, i - 1) IN
                IF "case_sensitive" \in Defects THEN k ELSE [j \in 1..Len(k) |-> Low(k[j])]
 ValOf(part) == LET i == CutAt(part) IN IF i = 0 THEN <<>> ELSE Trim(SubSeq(part, i + 1, Len(part)))
+\* parseDirectives: later occurrences win - except that a no-cache without argument is not narrowed by another
+\* occurrence that names fields (the pinned tree let the last one win there too)
 CodeParse(lines) ==
   LET parts == Csv(Value(lines), <<>>, FALSE, FALSE, <<>>)
       keys  == {KeyOf(parts[i]) : i \in 1..Len(parts)} \ {<<>>}
   IN [k \in keys |-> LET last == CHOOSE i \in 1..Len(parts) : KeyOf(parts[i]) = k /\ \A j \in (i + 1)..Len(parts) : KeyOf(parts[j]) # k
-                     IN Unquote(ValOf(parts[last]))]
+                     IN IF k = NameOf("no-cache") /\ "last_wins" \notin Defects
+                           /\ \E i \in 1..Len(parts) : KeyOf(parts[i]) = k /\ ValOf(parts[i]) = <<>>
+                          THEN <<>>
+                        ELSE Unquote(ValOf(parts[last]))]
 
 (***************************************************************************)
 (* what the text has to mean                                               *)
 (***************************************************************************)
 Known == {NameOf(n) : n \in {"max-age", "no-cache", "no-store", "must-revalidate", "only-if-cached", "max-stale", "min-fresh",
                              "stale-while-revalidate", "stale-if-error", "public", "immutable", "private"}}
+\* a directive given twice: the occurrence without argument decides (that only arises for no-cache here)
 MeaningOf(dirs) == [k \in {NameOf(dirs[i].n) : i \in 1..Len(dirs)} |->
-                      LET i == CHOOSE i \in 1..Len(dirs) : NameOf(dirs[i].n) = k IN ArgOf(dirs[i].a)]
+                      IF \E i \in 1..Len(dirs) : NameOf(dirs[i].n) = k /\ dirs[i].a = "" THEN <<>>
+                      ELSE LET i == CHOOSE i \in 1..Len(dirs) : NameOf(dirs[i].n) = k IN ArgOf(dirs[i].a)]
 Restrict(f, S) == [k \in DOMAIN f \cap S |-> f[k]]
 
 VARIABLES dl, rc, st
